@@ -19,6 +19,9 @@ use crate::http::Request;
 use crate::marker::StaticOrDynamic;
 #[cfg(feature = "router")]
 use crate::router::Route;
+#[cfg(kani)]
+use crate::verif_shim::ordered_set::LinkedHashSet;
+#[cfg(not(kani))]
 use linked_hash_set::LinkedHashSet;
 use serde::{Deserialize, Serialize};
 #[cfg(kani)]
